@@ -208,4 +208,113 @@ theorem link_delivered_is_reassembly (ra rb : Bool) (ga gb : Option Nat) (ops : 
     ∃ full, ((runLink (freshLink ra rb ga gb) ops).get x).rs.done[k]? = some full ∧ b = full.take c :=
   ((link_inv ops _ (linv_fresh ra rb ga gb) hw).get x).1.dlv k b c hk
 
+/-! ## Intact, exactly once, in order -/
+
+theorem steady_run (ops : List Op) : ∀ (l : LMon), LInv l → Steady l → WfSched ops →
+    LInv (runLink l ops) ∧ Steady (runLink l ops) := by
+  induction ops with
+  | nil => intro l hl hs _; exact ⟨hl, hs⟩
+  | cons op ops ih =>
+    intro l hl hs hw
+    have hw' : WfSched ops := fun o h => hw o (List.mem_cons_of_mem _ h)
+    have c := link_step l hl op (hw op List.mem_cons_self)
+    simp only [runLink]
+    cases h : l.step op with
+    | ok r =>
+      rw [h] at c
+      exact ih r.1 c (steady_step hl hs (l' := r.1) (o := r.2) h) hw'
+    | error f => exact ih l hl hs hw'
+
+/-- in a steady state, what an end has fetched is what the other end submitted -/
+theorem fetched_is_submitted {l : LMon} (hl : LInv l) (hs : Steady l) (y : Side) (k : Nat) (b : List Nat)
+    (c : Nat) (hk : (l.get y).fetched[k]? = some (b, c)) :
+    ∃ full, (l.get y.other).submitted[k]? = some full ∧ b = full.take c := by
+  obtain ⟨full, hfull, hb⟩ := (hl.get y).1.dlv k b c hk
+  refine ⟨full, ?_, hb⟩
+  have d := hs y.other
+  have hq := d.q
+  simp only [other_other] at hq
+  obtain ⟨l1, hl1⟩ := feedAll_done (l.inq y) (l.get y).rs
+  rw [hq] at hl1
+  have hklt : k < (l.get y).rs.done.length := (List.getElem?_eq_some_iff.mp hfull).1
+  have htx : (l.get y.other).tx.done[k]? = some full := by
+    rw [hl1, List.getElem?_append_left hklt]; exact hfull
+  have hklt2 : k < (l.get y.other).tx.done.length := (List.getElem?_eq_some_iff.mp htx).1
+  rw [← d.tx.done, List.getElem?_append_left hklt2]
+  exact htx
+
+/-- **`in_order_once`** (for the class of schedules stated here, see `C18_full` below): start from
+any state of the link in which both handshakes are done and only data / acknowledgement segments
+travel (`Steady`: e.g. the state right after the handshake, `steady_after_handshake`), and run ANY
+schedule of `Send | Poll | Deliver | Tick | Fetch` operations at both ends — any interleaving, any
+message lengths `1..1232`, any negotiated MTU and window, across sequence-number wrap, with
+slow applications and withheld acknowledgements. Then at either end the `k`-th fetched message is
+byte-identical to the `k`-th message submitted at the other end (cut to the caller's buffer): no
+message is corrupted, duplicated, reordered, or invented.
+
+In this model a refused `Deliver` leaves the link unchanged (the refused segment is never skipped;
+the GATT glue closes the connection on an error); that no `Deliver` *is* refused between two
+well-behaved ends is the part of `C18_full` that is not proved here (it is what the link stream of
+the harness checks on the real code). -/
+theorem in_order_once (l0 : LMon) (hl : LInv l0) (hs : Steady l0) (ops : List Op) (hw : WfSched ops)
+    (y : Side) (k : Nat) (b : List Nat) (c : Nat)
+    (hk : ((runLink l0 ops).get y).fetched[k]? = some (b, c)) :
+    ∃ full, ((runLink l0 ops).get y.other).submitted[k]? = some full ∧ b = full.take c := by
+  obtain ⟨hl', hs'⟩ := steady_run ops l0 hl hs hw
+  exact fetched_is_submitted hl' hs' y k b c hk
+
+/-- the handshake between two fresh ends (GATT MTU unknown at both) -/
+def handshakeOps : List Op := [.poll .a, .deliver .b, .poll .b, .deliver .a]
+
+/-- Non-vacuity of `Steady` / `in_order_once`: the state reached by the handshake from two fresh
+ends is steady (segment size 20, window 79 negotiated, both queues empty). -/
+theorem steady_after_handshake :
+    LInv (runLink (freshLink false false none none) handshakeOps) ∧
+    Steady (runLink (freshLink false false none none) handshakeOps) ∧
+    ((runLink (freshLink false false none none) handshakeOps).a.e.s.established = true ∧
+     (runLink (freshLink false false none none) handshakeOps).b.e.s.windowSize = 79 ∧
+     (runLink (freshLink false false none none) handshakeOps).b.e.s.mtu = 20) := by
+  refine ⟨link_inv _ _ (linv_fresh _ _ _ _) (fun op h => ?_), ?_, ?_⟩
+  · simp [handshakeOps] at h
+    rcases h with rfl | rfl | rfl | rfl <;> trivial
+  · intro x
+    cases x
+    · refine ⟨by decide, ⟨by decide, by decide, by decide, ?_, ?_⟩, ?_, by decide⟩
+      · intro h; exact absurd (by decide) h
+      · intro _; decide
+      · have hq : (runLink (freshLink false false none none) handshakeOps).inq Side.a.other = [] := by decide
+        intro seg h; rw [hq] at h; exact absurd h List.not_mem_nil
+    · refine ⟨by decide, ⟨by decide, by decide, by decide, ?_, ?_⟩, ?_, by decide⟩
+      · intro h; exact absurd (by decide) h
+      · intro _; decide
+      · have hq : (runLink (freshLink false false none none) handshakeOps).inq Side.b.other = [] := by decide
+        intro seg h; rw [hq] at h; exact absurd h List.not_mem_nil
+  · decide
+
+/-- Non-vacuity of the conclusion: after the handshake, `a` submits `[1, 2, 3]`, the segment
+travels, `b` fetches exactly `[1, 2, 3]`. -/
+example : ((runLink (freshLink false false none none)
+    (handshakeOps ++ [.send .a [1, 2, 3], .poll .a, .deliver .b, .fetch .b 2048])).b.fetched) =
+    [([1, 2, 3], 2048)] := by decide
+
+/-! ## What is not proved -/
+
+/-- The full statement of the property on the model: from two fresh ends, under every schedule,
+(1) no operation fails (in particular no `Deliver` is refused), (2) what is fetched at one end is
+a prefix of what was submitted at the other end, (3) an end never has more segments in flight than
+the window. Proved: (2) from every steady state (`in_order_once`), the sender-side form of (3)
+(`emits_only_with_free_slot`), and "never panics" + invariants for every schedule (`link_inv`,
+`link_never_panics`). Not proved: (1), i.e. that sequence numbers, acknowledgements and window
+levels of two well-behaved ends always match (it needs the in-flight accounting
+`level + ack_level + in flight = window` across both queues); the harness checks it on the real
+code (kind `l`: any error between two well-behaved ends is an oracle failure). -/
+def C18_full : Prop :=
+  ∀ (ra rb : Bool) (ga gb : Option Nat) (ops : List Op), WfSched ops →
+    (∀ op, WfOp op → ∀ e, (runLink (freshLink ra rb ga gb) ops).step op ≠ .error e ∨
+        e = .invalidArgument) ∧
+    (∀ (y : Side) (k : Nat) (b : List Nat) (c : Nat),
+        ((runLink (freshLink ra rb ga gb) ops).get y).fetched[k]? = some (b, c) →
+        ∃ full, ((runLink (freshLink ra rb ga gb) ops).get y.other).submitted[k]? = some full ∧
+          b = full.take c)
+
 end C18
